@@ -310,6 +310,16 @@ impl TlsDemux {
                 h,
                 None,
             )
+        } else if let Some(main_hostname) = self.allowed_sni_to_main_host.get(&sni) {
+            // a configured name comes before the `<credentials>.<main host>` pattern, which
+            // would otherwise swallow an alternative SNI that is a subdomain of a main host
+            let host = self.main_hosts.get(main_hostname).unwrap();
+            (
+                self.select_tunnel_channel_protocol(parsed_alpn.iter(), alpn)?,
+                Channel::Tunnel,
+                host,
+                None,
+            )
         } else if let Some((host, auth_creds)) = sni
             .split_once('.')
             .and_then(|(a, b)| self.main_hosts.get(b).zip(Some(a)))
@@ -319,14 +329,6 @@ impl TlsDemux {
                 Channel::Tunnel,
                 host,
                 Some(String::from(auth_creds)),
-            )
-        } else if let Some(main_hostname) = self.allowed_sni_to_main_host.get(&sni) {
-            let host = self.main_hosts.get(main_hostname).unwrap();
-            (
-                self.select_tunnel_channel_protocol(parsed_alpn.iter(), alpn)?,
-                Channel::Tunnel,
-                host,
-                None,
             )
         } else {
             return Err(format!("Unexpected SNI {}", sni));
